@@ -537,6 +537,12 @@ func TypeTab(w *load.World, c *core.Collector) {
 						set[k] = true
 					}
 				}
+				// a drain constructor of this package that wires the pre-processing itself
+				if g := ssax.StaticModuleCallee(in); g != nil && load.PkgPath(g) == load.PkgPath(dr) && g != dr {
+					for k := range consumerOf(g, map[*ssa.Function]bool{}) {
+						set[k] = true
+					}
+				}
 				// pre-processing functions handed on as values (to a generic drain helper)
 				for k := range classifyOperands(in, consumerOf) {
 					set[k] = true
@@ -555,6 +561,25 @@ func TypeTab(w *load.World, c *core.Collector) {
 					if call, ok := in.(*ssa.Call); ok {
 						if g := call.Call.StaticCallee(); g != nil && g.Origin() != nil && strings.HasPrefix(g.Origin().Name(), "NewIndexInverted") && len(g.TypeArgs()) > 0 {
 							out[val][typeKey(g.TypeArgs()[0])] = true
+						} else if g != nil && load.InMod(g) && load.PkgPath(g) == load.PkgPath(f) && g != f {
+							// a sub-dispatcher that receives the tag: what it instantiates when the tag has this value
+							for i, a := range call.Call.Args {
+								if i >= len(g.Params) || !isTag(a) {
+									continue
+								}
+								if bt, ok := a.Type().Underlying().(*types.Basic); !ok || bt.Info()&types.IsString == 0 {
+									continue
+								}
+								for hb := range blocksGiven(g, g.Params[i], val) {
+									for _, hin := range hb.Instrs {
+										if hc, ok := hin.(*ssa.Call); ok {
+											if h := hc.Call.StaticCallee(); h != nil && h.Origin() != nil && strings.HasPrefix(h.Origin().Name(), "NewIndexInverted") && len(h.TypeArgs()) > 0 {
+												out[val][typeKey(h.TypeArgs()[0])] = true
+											}
+										}
+									}
+								}
+							}
 						}
 					}
 				}
@@ -624,4 +649,41 @@ func classifyOperands(in ssa.Instruction, consumerOf func(*ssa.Function, map[*ss
 		}
 	}
 	return out
+}
+
+// blocksGiven: the blocks of g that can execute when its string parameter p has the value val:
+// reachability from the entry in which a comparison of p with a constant takes only the
+// edge that agrees with val.
+func blocksGiven(g *ssa.Function, p *ssa.Parameter, val string) map[*ssa.BasicBlock]bool {
+	seen := map[*ssa.BasicBlock]bool{}
+	if len(g.Blocks) == 0 {
+		return seen
+	}
+	var dfs func(b *ssa.BasicBlock)
+	dfs = func(b *ssa.BasicBlock) {
+		if seen[b] {
+			return
+		}
+		seen[b] = true
+		if ifi, ok := b.Instrs[len(b.Instrs)-1].(*ssa.If); ok {
+			if bo, ok := ifi.Cond.(*ssa.BinOp); ok && (bo.Op == token.EQL || bo.Op == token.NEQ) {
+				for _, pr := range [][2]ssa.Value{{bo.X, bo.Y}, {bo.Y, bo.X}} {
+					if cs, ok := ssax.ConstString(pr[1]); ok && peelToParam(pr[0]) == ssa.Value(p) {
+						holds := (cs == val) == (bo.Op == token.EQL)
+						if holds {
+							dfs(b.Succs[0])
+						} else {
+							dfs(b.Succs[1])
+						}
+						return
+					}
+				}
+			}
+		}
+		for _, s := range b.Succs {
+			dfs(s)
+		}
+	}
+	dfs(g.Blocks[0])
+	return seen
 }
